@@ -81,7 +81,14 @@ func ftyCoq(t reflect.Type) string {
 	case reflect.Struct, reflect.Map, reflect.Slice:
 		return "(FJson " + cN(typeID(t)) + ")"
 	}
-	return fmt.Sprintf("(FOther %s %s)", cN(typeID(t)), cN(int(t.Kind())))
+	elem := "None"
+	if t.Kind() == reflect.Pointer {
+		// tryConvertPointer: a pointer whose element is neither a scalar (FPtr) nor a struct, slice or map
+		if ek := t.Elem().Kind(); ek != reflect.Slice && ek != reflect.Map && ek != reflect.Struct {
+			elem = fmt.Sprintf("(Some (%s, %s))", cN(typeID(t.Elem())), cN(int(ek)))
+		}
+	}
+	return fmt.Sprintf("(FOther %s %s %s)", cN(typeID(t)), cN(int(t.Kind())), elem)
 }
 
 func ukeyCoq(k keyEntry) string {
@@ -186,9 +193,17 @@ func dvalCoq(v any, targets []reflect.Type) string {
 		return fmt.Sprintf("(DJ %s %s)", cN(typeID(t)), cList(tbl))
 	}
 	var conv []string
-	for _, tg := range targets {
-		if tg != nil && t.ConvertibleTo(tg) {
+	seen := map[reflect.Type]bool{}
+	add := func(tg reflect.Type) {
+		if tg != nil && !seen[tg] && t.ConvertibleTo(tg) {
+			seen[tg] = true
 			conv = append(conv, cN(typeID(tg)))
+		}
+	}
+	for _, tg := range targets {
+		add(tg)
+		if tg != nil && tg.Kind() == reflect.Pointer { // the element types of pointer targets (tryConvertPointer)
+			add(tg.Elem())
 		}
 	}
 	return fmt.Sprintf("(DO %s %s %s)", cN(typeID(t)), cN(int(t.Kind())), cList(conv))
@@ -263,14 +278,16 @@ var umValues = []umVal{
 	{"ptrP", func() any { return &P{A: 1, B: "b"} }},
 	{"ptrInt", func() any { x := 5; return &x }},
 	{"nilPtrInt", func() any { return (*int)(nil) }},
+	{"nilPtrStr", func() any { return (*string)(nil) }},
+	{"ptrArr2", func() any { return &[2]int{3, 4} }},
 	{"P", func() any { return P{A: 2, B: "c"} }},
 	{"listChan", func() any { return []any{make(chan int)} }},
 	{"nan", func() any { return math.NaN() }},
 }
 
 // field names a document may carry, and the keys (keyPool indexes) a definition / custom list may carry
-var umNames = []string{"s", "n", "i8", "u8", "f32", "f64", "b", "any", "myint", "mystr", "p", "ints", "msi", "arr", "arr3", "pn", "ps", "pp", "pmi", "zz", "http_status", "log_level", "N", "S", "F32"}
-var umKeys = []int{0, 29, 2, 30, 39, 4, 9, 13, 14, 15, 19, 21, 22, 24, 26, 27, 28, 32, 33, 34, 35, 36}
+var umNames = []string{"s", "n", "i8", "u8", "f32", "f64", "b", "any", "myint", "mystr", "p", "ints", "msi", "arr", "arr3", "pn", "ps", "pp", "pmi", "zz", "http_status", "log_level", "N", "S", "F32", "parr", "pps"}
+var umKeys = []int{0, 29, 2, 30, 39, 4, 9, 13, 14, 15, 19, 21, 22, 24, 26, 27, 28, 32, 33, 34, 35, 36, 42, 43}
 
 // ---------- document DSL ----------
 
@@ -329,6 +346,12 @@ func genUDoc(r *Rng, depth int) *UDoc {
 		}
 	}
 	d.Stack = r.Intn(3)
+	if r.Chance(1, 6) {
+		// a kind-less node that spells a registered sentinel's (type, message) - with or
+		// without nested causes (only the cause-less one is the sentinel itself)
+		sp := Pick(r, [][2]string{{"*errors.errorString", "EOF"}, {"*errors.errorString", "s1"}, {"*main.leafErr", "leaf1"}, {"*errors.errorString", "unexpected EOF"}})
+		d.Kind, d.Type, d.Msg = "", sp[0], sp[1]
+	}
 	if depth > 0 {
 		nc := r.Intn(3)
 		for i := 0; i < nc; i++ {
@@ -353,6 +376,7 @@ func pickValueFor(r *Rng, name string) int {
 		"msi": {"mapSI", "mapP"}, "arr": {"arr2", "arr3", "listInts"}, "arr3": {"arr2", "arr3"},
 		"pn": {"int(4)", "f3", "ptrInt", "nilPtrInt", "i5"}, "ps": {"str", "MyStr"}, "pp": {"mapP", "mapBadP", "ptrP"},
 		"pmi": {"MyInt(9)", "int(4)"}, "http_status": {"f3", "str"}, "log_level": {"f3", "str"},
+		"parr": {"arr2", "arr3", "ptrArr2", "listInts"}, "pps": {"nilPtrInt", "ptrInt", "nilPtrStr", "str"},
 	}
 	if hs, ok := hints[name]; ok && r.Chance(4, 5) {
 		want := Pick(r, hs)
